@@ -139,7 +139,11 @@ where
         let compression_level = self.compression_level;
 
         rayon::spawn(move || {
+            #[cfg(noodles_verif)]
+            crate::verif::hit(crate::verif::Site::DeflateTaskStart, &src);
             let result = compress(&src, compression_level);
+            #[cfg(noodles_verif)]
+            crate::verif::hit(crate::verif::Site::DeflateTaskEnd, &src);
             buffered_tx.send(result).ok();
         });
 
